@@ -35,7 +35,7 @@ ASSUMPTIONS = [
 ]
 
 ALPHA = {
-    'build': 10, 'var': 2, 'cube': 2, 'apply': 6, 'ite': 2, 'quantify': 2,
+    'build': 10, 'repeat': 5, 'var': 2, 'cube': 2, 'apply': 6, 'ite': 2, 'quantify': 2,
     'let_const': 1, 'let_rename': 2, 'let_compose': 2, 'add_expr': 2,
     'to_expr': 2, 'drop': 5, 'gc': 4, 'gc_roots': 2, 'swap': 5, 'sift': 2,
     'reorder_to': 2, 'reorder_pairs': 1, 'declare': 2, 'add_var': 1,
